@@ -7,6 +7,7 @@ import (
 	"go/printer"
 	"go/token"
 	"os"
+	"path/filepath"
 	"regexp"
 
 	"github.com/reedom/convergen/pkg/builder"
@@ -47,6 +48,7 @@ func NewParser(srcPath, dstPath string) (*Parser, error) {
 	dstStat, _ := os.Stat(dstPath)
 	var parseErr error
 	cfg := &packages.Config{
+		Overlay:    hideStaleOutput(srcPath, srcStat, dstPath, dstStat),
 		Mode:       parserLoadMode,
 		BuildFlags: []string{"-tags", buildTag},
 		Fset:       fileSet,
@@ -93,6 +95,29 @@ func NewParser(srcPath, dstPath string) (*Parser, error) {
 		opts:    option.NewOptions(),
 		imports: util.NewImportNames(fileSrc.Imports),
 	}, nil
+}
+
+// hideStaleOutput returns an overlay that replaces a previous generation
+// target lying next to the setup file with a bare package clause.
+// ParseFile already skips that file, but `go list` would still read its package
+// clause and imports, so a truncated or broken leftover could fail the load.
+func hideStaleOutput(srcPath string, srcStat os.FileInfo, dstPath string, dstStat os.FileInfo) map[string][]byte {
+	if dstStat == nil || !dstStat.Mode().IsRegular() || os.SameFile(srcStat, dstStat) {
+		return nil
+	}
+	srcAbs, err := filepath.Abs(srcPath)
+	if err != nil {
+		return nil
+	}
+	dstAbs, err := filepath.Abs(dstPath)
+	if err != nil || filepath.Dir(srcAbs) != filepath.Dir(dstAbs) {
+		return nil
+	}
+	file, err := parser.ParseFile(token.NewFileSet(), srcPath, nil, parser.PackageClauseOnly)
+	if err != nil || file.Name == nil {
+		return nil
+	}
+	return map[string][]byte{dstAbs: []byte("package " + file.Name.Name + "\n")}
 }
 
 // Parse parses convergen annotations in the source code.
